@@ -113,6 +113,10 @@ def gen_cases(rng, n):
         if r < 0.3 and nb > 1:
             plan["stop_after"] = rng.randint(1, nb - 1)
             plan["partial"] = adv and rng.random() < 0.6
+        elif adv and r < 0.55:
+            # the device ends the whole advance with PARTIAL (the usual outcome while no new best block is
+            # reached) - after the last block or right after the last brother of the last block
+            plan["partial"] = True
         if adv:
             plan["ask_brothers"] = set(k for k in range(nb) if rng.random() < 0.6)
             if force_ask is not None and "stop_after" not in plan:
